@@ -116,6 +116,25 @@ def cases_for(rng, tier):
                     cases.append("cmpstr_default %s %s" % (hx(d), hx(t.encode())))
                     cases.append("cmpstr_default %s %s" % (hx(t.encode()), hx(d)))
                     cases.append("cmpstr_default %s %s" % (hx(d), hx(d)))
+        # the same checksum and body with different length / Q-ratio bytes (a shortcut that looks at part of the hash only),
+        # through the generic helper and, for the default type, through `compare`
+        base = bytearray(suites.random_bin(rng, v))
+        for dl, dq in ((1, 0), (0, 1), (2, 0x10), (0x40, 0), (0, 0x88), (0x7f, 0x11)):
+            o = bytearray(base)
+            o[ckn] = (o[ckn] + dl) % 256
+            o[ckn + 1] = (o[ckn + 1] + dq) % 256
+            sa, sb = suites.ref_format(v, bytes(base), True), suites.ref_format(v, bytes(o), True)
+            cases.append("cmpstr %s %s %s" % (v, hx(sa.encode()), hx(sb.encode())))
+            cases.append("cmpstr %s %s %s" % (v, hx(sb.lower().encode()), hx(sa[2:].encode())))
+            if v == "N":
+                cases.append("cmpstr_default %s %s" % (hx(sa.encode()), hx(sb.encode())))
+                cases.append("cmpstr_default %s %s" % (hx(sb[2:].encode()), hx(sa.lower().encode())))
+        # a differing checksum only / a differing single body byte only, through `compare`
+        if v == "N":
+            for pos in (0, ckn + 2, size - 1):
+                o = bytearray(base)
+                o[pos] ^= 0x41
+                cases.append("cmpstr_default %s %s" % (hx(suites.ref_format(v, bytes(base), True).encode()), hx(suites.ref_format(v, bytes(o), True).encode())))
         cases.append("cmpstr %s %s %s" % (v, hx(b""), hx(b"")))
         cases.append("cmpstr %s %s %s" % (v, hx(b"TNULL"), hx(b"T1")))
     for _ in range(n):
